@@ -62,7 +62,7 @@ class DSDLTemplateLoader(BaseLoader):
         **kwargs: typing.Any,
     ):
         super().__init__(**kwargs)
-        self._type_to_template_lookup_cache: typing.Dict[pydsdl.Any, pathlib.Path] = dict()
+        self._type_to_template_lookup_cache: typing.Dict[typing.Any, pathlib.Path] = dict()  # key: (walk, type)
 
         if templates_dirs is not None:
             for templates_dir_item in templates_dirs:
@@ -210,12 +210,12 @@ class DSDLTemplateLoader(BaseLoader):
         if self._fsloader is not None:
             filtered_templates = self._filter_template_list_by_suffix(self._fsloader.list_templates())
             template_path = self._type_to_template_internal(
-                value_type, dict(map(lambda x: (pathlib.Path(x).stem, pathlib.Path(x)), filtered_templates))
+                value_type, dict(map(lambda x: (pathlib.Path(x).stem, pathlib.Path(x)), filtered_templates)), "fs"
             )
         if template_path is None and self._package_loader is not None:
             filtered_templates = self._filter_template_list_by_suffix(self._package_loader.list_templates())
             template_path = self._type_to_template_internal(
-                value_type, dict(map(lambda x: (pathlib.Path(x).stem, pathlib.Path(x)), filtered_templates))
+                value_type, dict(map(lambda x: (pathlib.Path(x).stem, pathlib.Path(x)), filtered_templates)), "package"
             )
 
         return template_path
@@ -228,7 +228,7 @@ class DSDLTemplateLoader(BaseLoader):
         return [f for f in files if pathlib.Path(f).suffix == TEMPLATE_SUFFIX]
 
     def _type_to_template_internal(
-        self, value_type: typing.Type, templates: typing.Mapping[str, pathlib.Path]
+        self, value_type: typing.Type, templates: typing.Mapping[str, pathlib.Path], walk: str
     ) -> typing.Optional[pathlib.Path]:
         search_queue = collections.deque()  # type: typing.Deque[typing.Any]
         discovered = set()  # type: typing.Set[typing.Any]
@@ -238,7 +238,7 @@ class DSDLTemplateLoader(BaseLoader):
         while len(search_queue) > 0:
             current_search_type = search_queue.pop()
             try:
-                template_path = self._type_to_template_lookup_cache[current_search_type]
+                template_path = self._type_to_template_lookup_cache[(walk, current_search_type)]
                 break
             except KeyError:
                 pass
@@ -250,7 +250,7 @@ class DSDLTemplateLoader(BaseLoader):
                     current_search_type.__name__,
                 )
                 template_path = templates[current_search_type.__name__]
-                self._type_to_template_lookup_cache[current_search_type] = template_path
+                self._type_to_template_lookup_cache[(walk, current_search_type)] = template_path
                 break
             except KeyError:
                 for base_type in current_search_type.__bases__:
